@@ -381,6 +381,15 @@ impl<F> Slot<F> {
         }
         self.clear();
     }
+    /// Drop issued from inside `wake()` by a window reaction.
+    pub fn drop_in_window(&mut self) {
+        if let Some(b) = self.fut.take() {
+            let raw: *mut F = Box::into_raw(unsafe { Pin::into_inner_unchecked(b) });
+            unsafe { std::ptr::drop_in_place(raw) };
+            tls::unarmed(|| tls::bury(raw as *mut u8, std::alloc::Layout::new::<F>()));
+        }
+        self.clear();
+    }
     /// forget without running Drop (used after a violation, the state is not trustworthy)
     pub fn leak(&mut self) {
         if let Some(f) = self.fut.take() {
@@ -395,6 +404,28 @@ impl<F> Slot<F> {
 }
 
 impl<F: Future> Slot<F> {
+    /// Poll issued from inside `wake()` by a window reaction (see `tls::set_reactor`): same
+    /// bookkeeping as `poll`, but not a library call of its own - a panic travels up through the
+    /// library frames and is caught by the call that delivered the wake-up.
+    pub fn poll_in_window(&mut self, w: u8) -> Poll<F::Output> {
+        let seq = tls::tick();
+        self.poll_seq = seq;
+        self.last_w = w;
+        self.polled = true;
+        self.polls += 1;
+        let waker = make_waker(self.waker_id_for(w));
+        let mut cx = Context::from_waker(&waker);
+        let fut = self.fut.as_mut().expect("poll on empty slot");
+        let r = fut.as_mut().poll(&mut cx);
+        drop(waker);
+        if r.is_ready() {
+            self.done = true;
+        } else if self.arrival == 0 {
+            self.arrival = seq;
+        }
+        r
+    }
+
     /// Polls the slot with waker variant `w`; maintains poll bookkeeping. Returns `None` when the
     /// poll panicked (violation already recorded).
     pub fn poll(&mut self, w: u8, run: &mut Run) -> Option<Poll<F::Output>> {
